@@ -24,30 +24,17 @@ theorem source_fingerprints :
     Gen.Reserved.hlslIntrinsicsReserved = true ∧ Gen.Reserved.mslIntrinsicsReserved = false := by
   decide
 
-/-- Every entry of the independent keyword / built-in lists is in `RESERVED_NAMES`, except the committed
-exceptions `Spec.Names.hlslNotListed` / `mslNotListed`.  *Partial*: the full statement
-(`∀ n ∈ keywords, n ∈ RESERVED_NAMES`) is false on the pinned tree, see `reserved_incomplete_*`. -/
-theorem reserved_complete_partial :
-    (∀ n ∈ Spec.Names.hlslKeywords, n ∈ Gen.Reserved.hlsl ∨ n ∈ Spec.Names.hlslNotListed) ∧
-    (∀ n ∈ Spec.Names.mslKeywords, n ∈ Gen.Reserved.msl ∨ n ∈ Spec.Names.mslNotListed) := by
+/-- **reserved_complete** (full): every entry of the independent keyword / built-in lists of HLSL and MSL is
+in the `RESERVED_NAMES` table of the corresponding exporter.  (False before /repo 05e2470: the HLSL table had
+the entry `"SamplerState,"` and 90 HLSL / 43 MSL names were missing.) -/
+theorem reserved_complete :
+    (∀ n ∈ Spec.Names.hlslKeywords, n ∈ Gen.Reserved.hlsl) ∧
+    (∀ n ∈ Spec.Names.mslKeywords, n ∈ Gen.Reserved.msl) := by
   decide +kernel
 
-/-- the exception lists contain nothing that *is* listed (so they cannot hide a deletion) -/
-theorem not_listed_exact :
-    (∀ n ∈ Spec.Names.hlslNotListed, n ∈ Spec.Names.hlslKeywords ∧ n ∉ Gen.Reserved.hlsl) ∧
-    (∀ n ∈ Spec.Names.mslNotListed, n ∈ Spec.Names.mslKeywords ∧ n ∉ Gen.Reserved.msl) := by
-  decide +kernel
-
-/-- Negation witness of `reserved_complete` for HLSL: the table has the typo `"SamplerState,"`. -/
-theorem reserved_incomplete_hlsl :
-    "SamplerState" ∈ Spec.Names.hlslKeywords ∧ "SamplerState" ∉ Gen.Reserved.hlsl ∧
-    "SamplerState," ∈ Gen.Reserved.hlsl := by
-  decide +kernel
-
-/-- Negation witness of `reserved_complete` for MSL: the address-space keywords are not reserved. -/
-theorem reserved_incomplete_msl :
-    "device" ∈ Spec.Names.mslKeywords ∧ "device" ∉ Gen.Reserved.msl ∧
-    "constant" ∉ Gen.Reserved.msl ∧ "thread" ∉ Gen.Reserved.msl ∧ "threadgroup" ∉ Gen.Reserved.msl := by
+/-- the entries whose absence was the defect are present after the fix -/
+example : "SamplerState" ∈ Gen.Reserved.hlsl ∧ "SamplerState," ∉ Gen.Reserved.hlsl ∧
+    "device" ∈ Gen.Reserved.msl ∧ "threadgroup" ∈ Gen.Reserved.msl := by
   decide +kernel
 
 /-! ## what is *not* true on the pinned code (negation witnesses, replayed on the real code by the corpus) -/
